@@ -184,7 +184,23 @@ def run(ctx):
             if dten:
                 continue        # box edges through stations are not decidable once the convention change rounds
             if seam_touch and tol > 0:
-                ctx.notes["bbox_skipped_seam_touch"] = ctx.notes.get("bbox_skipped_seam_touch", 0) + 1
+                # only the stations strictly inside the box as the caller wrote it (before the tolerance widens it across the seam) are
+                # decidable: they must be among the stations returned (BBoxContainsEnclosed widened to "inside the raw box")
+                ctx.notes["bbox_seam_touch_core_only"] = ctx.notes.get("bbox_seam_touch_core_only", 0) + 1
+                core = sorted(k for k in range(len(st)) if min(qlon) <= rep(st[k][0], cq) <= max(qlon) and rep(st[k][0], cq) not in (0.0, 360.0, -180.0, 180.0)
+                              and min(qlat) - told <= st[k][1] / 2.0 <= max(qlat) + told and st[k][0] not in (0, 360))
+                if core:
+                    try:
+                        out = ds.spec.sel(ql, qa, method="bbox", tolerance=told, **kw)
+                        got = sorted(next((k for k in range(len(st)) if np.array_equal(e, station_spec(k))), -1) for e in out.efth.values)
+                    except ValueError:
+                        got = []
+                    if set(core) <= set(got):
+                        ctx.replayed()
+                    else:
+                        ctx.violation(dict(key0, method="bbox", clause="core-of-seam-reaching-box"),
+                                      "bbox [%s..%s] +- %g (reaching the seam of the query's convention once widened) returned stations %s; %s lie inside "
+                                      "the box as written (dataset lons %s)" % (min(qlon), max(qlon), told, got, core, ds.lon.values), {"v": _small(v)})
                 continue
             out = ds.spec.sel(ql, qa, method="bbox", tolerance=told, **kw)
             got = sorted(next((k for k in range(len(st)) if np.array_equal(e, station_spec(k))), -1) for e in out.efth.values)
